@@ -294,6 +294,32 @@ static void run_c06(const vf::Args &args, Report &rep)
             PoseidonGoldilocks::hash_full_result_seq(io, io);
             cmp12(rep, "C06", "hash_full_result_seq(in place)", fam, st, io, exp);
         }
+        if ((t & 3) == 0)
+        {
+            // a chain of calls, each fed with the previous result, in place (the way the sponge drives it): perm^k(x) for k = 1..3,
+            // then the capacity hash of the last result; a call must not depend on what the previous call was given or returned
+            uint64_t cur[12], nxt[12];
+            memcpy(cur, st, sizeof cur);
+            El io[12], io2[12];
+            memcpy(io, in, sizeof io);
+            memcpy(io2, in, sizeof io2);
+            for (int k = 1; k <= 3; k++)
+            {
+                ref.permute(nxt, cur);
+                PoseidonGoldilocks::hash_full_result(io, io);
+                cmp12(rep, "C06", k == 1 ? "hash_full_result(chain step 1)" : "hash_full_result(chained in place)", fam, cur, io, nxt);
+                PoseidonGoldilocks::hash_full_result_seq(io2, io2);
+                cmp12(rep, "C06", k == 1 ? "hash_full_result_seq(chain step 1)" : "hash_full_result_seq(chained in place)", fam, cur, io2, nxt);
+                memcpy(cur, nxt, sizeof cur);
+            }
+            ref.permute(nxt, cur);
+            El c4[4];
+            PoseidonGoldilocks::hash((El(&)[4]) * c4, (const El(&)[12]) * io);
+            cmp12(rep, "C06", "hash(after chained calls)", fam, cur, c4, nxt, 4);
+            PoseidonGoldilocks::hash_seq((El(&)[4]) * c4, (const El(&)[12]) * io2);
+            cmp12(rep, "C06", "hash_seq(after chained calls)", fam, cur, c4, nxt, 4);
+            rep.cls("forms:chained_in_place_calls");
+        }
         {
             El c4[4];
             PoseidonGoldilocks::hash_seq((El(&)[4]) * c4, (const El(&)[12]) * in);
@@ -635,6 +661,58 @@ static void run_c08(const vf::Args &args, Report &rep)
     rep.cls("family:merkle_configs", mineidx.size());
 }
 
+// C07: the three variants called concurrently from a team of threads, every thread on its own inputs
+static void run_c07_concurrent(const vf::Args &args, Report &rep)
+{
+    Ref ref;
+    const int T = 8;
+    uint64_t rounds = args.getu("concurrent_rounds", args.thorough() ? 400 : 40);
+    struct Job { uint64_t len; std::vector<uint64_t> in; uint64_t e1[4], e2[4]; };
+    for (uint64_t rd = 0; rd < rounds; rd++)
+    {
+        if ((int)(rd % args.nshards) != args.shard) continue;
+        std::vector<Job> jobs(T * 6);
+        Rng r(vf::mix64(args.seed, 0x7C0 + rd));
+        for (auto &j : jobs)
+        {
+            j.len = r.below(3) == 0 ? r.below(5) : r.below(41);
+            j.in.resize(2 * j.len + 1);
+            for (uint64_t i = 0; i < 2 * j.len; i++) j.in[i] = r.next();
+            ref.sponge(j.e1, j.in.data(), j.len);
+            ref.sponge(j.e2, j.in.data() + j.len, j.len);
+        }
+        int bad[T];
+        uint64_t badlen[T];
+        for (int t = 0; t < T; t++) bad[t] = 0;
+#pragma omp parallel num_threads(T)
+        {
+            int me = omp_get_thread_num() % T;
+            for (int rep_i = 0; rep_i < 20; rep_i++)
+                for (size_t k = me; k < jobs.size(); k += T)
+                {
+                    Job &j = jobs[k];
+                    El o[8];
+                    auto ok4 = [&](const El *got, const uint64_t *e) { for (int i = 0; i < 4; i++) if (orc::canon(got[i].fe) != orc::canon(e[i])) return false; return true; };
+                    PoseidonGoldilocks::linear_hash_seq(o, (El *)j.in.data(), j.len);
+                    if (!ok4(o, j.e1) && !bad[me]) { bad[me] = 1; badlen[me] = j.len; }
+                    PoseidonGoldilocks::linear_hash(o, (El *)j.in.data(), j.len);
+                    if (!ok4(o, j.e1) && !bad[me]) { bad[me] = 2; badlen[me] = j.len; }
+#ifdef __AVX512__
+                    PoseidonGoldilocks::linear_hash_avx512(o, (El *)j.in.data(), j.len);
+                    if ((!ok4(o, j.e1) || !ok4(o + 4, j.e2)) && !bad[me]) { bad[me] = 3; badlen[me] = j.len; }
+#endif
+                }
+        }
+        static const char *VN[] = {"", "linear_hash_seq", "linear_hash", "linear_hash_avx512"};
+        for (int t = 0; t < T; t++)
+            if (bad[t])
+                rep.violation(std::string("C07:") + VN[bad[t]] + ":concurrent-callers:wrong-digest:" + (badlen[t] <= 4 ? "passthrough" : "hashed"),
+                              J().str("variant", VN[bad[t]]).u("length", badlen[t]).str("what", "8 threads hashing their own inputs at the same time").done());
+        rep.evaluations += jobs.size() * 20;
+        rep.cls("family:concurrent_callers", jobs.size() * 20);
+    }
+}
+
 int main(int argc, char **argv)
 {
     vf::Args args = vf::parse_args(argc, argv);
@@ -642,7 +720,7 @@ int main(int argc, char **argv)
     rep.open(args.prop, args.out);
     std::string what = args.get("what", args.prop);
     if (what == "C06") run_c06(args, rep);
-    else if (what == "C07") run_c07(args, rep);
+    else if (what == "C07") { run_c07(args, rep); run_c07_concurrent(args, rep); }
     else if (what == "C08") run_c08(args, rep);
     else if (what == "tablehash") { printf("0x%016llxULL\n", (unsigned long long)table_hash()); return 0; }
     else { fprintf(stderr, "unknown --prop\n"); return 3; }
